@@ -35,6 +35,27 @@ def gen(ctx, label, n):
         else:
             ast = instgen.gen_ast(rng, maxS=4, maxP=3, maxL=3)
         yield dict(text=instgen.render(ast), na=ast['na'], twopl=rng.random() < 0.5, pc=rng.random() < 0.4, ast=ast)
+    # all-or-nothing projects under -pc: one project runs only with (nearly) everybody on it, so maximum matchings with
+    # very different profiles compete (everybody on the second choice against all but one on the first and one on the
+    # last): more students than ranks, counts that reach the number of ranks
+    for k in range(8):
+        S = rng.choice([4, 4, 5])
+        order = rng.sample([1, 2, 3], 3)
+        a_, b_, c_ = order
+        first = []
+        for s_ in range(S):
+            o = list(order)
+            if rng.random() < 0.2:
+                rng.shuffle(o)
+            first.append([[p] for p in o])
+        L = rng.choice([1, 1, 2])
+        projects = [None, None, None]
+        projects[a_ - 1] = [0, S - 1, rng.randint(1, L)]
+        projects[b_ - 1] = [rng.choice([S, S, S - 1]), S, rng.randint(1, L)]
+        projects[c_ - 1] = [0, 1, rng.randint(1, L)]
+        lecturers = [[0, rng.randint(0, S), S + rng.randint(0, 1), []] for _ in range(L)]
+        ast = dict(na=3, n1=S, n2=3, n3=L, first=first, projects=projects, lecturers=lecturers)
+        yield dict(text=instgen.render(ast), na=3, twopl=False, pc=True, ast=ast)
     # shapes the accumulators' initial values must be neutral for
     for text, na in [('1 2\n1: 1 2\n1: 0: 1:\n2: 0: 1:\n', 2), ('3 1\n1: 1\n2: 1\n3: 1\n1: 0: 3:\n', 2),
                      ('1 1\n1: 1\n1: 1: 0:\n', 2), ('2 2\n1:\n2:\n1: 0: 1:\n2: 0: 1:\n', 2),
